@@ -97,4 +97,9 @@ func init() {
 	add("c14-pair-pem", "C14.pair", "format/crypto/pem.jq", "| _from_base64({encoding: \"std\"})", "| _from_base64({encoding: \"url\"})", "base64-pair:to_pem")
 	add("c14-jqerr-fromjson", "C14.jqerr", "format/json/json.jq", "def fromjson: decode(\"json\") | if ._error then error(._error.error) end;", "def fromjson: decode(\"json\");", "fromjson")
 	add("c14-jqerr-term", "C14.jqerr", "format/json/jq.jq", "else error(\"unsupported term \\($v.term.type)\")", "else null", "unsupported-term")
+
+	// C14.shape
+	add("c14-shape-append-on-make", "C14.shape", "internal/gojqx/types.go", "\t\tvar vs []any\n\t\tfor _, e := range v {\n\t\t\tvs = append(vs, NormalizeFn(e, fn))", "\t\tvs := make([]any, len(v))\n\t\tfor _, e := range v {\n\t\t\tvs = append(vs, NormalizeFn(e, fn))", "NormalizeFn|append")
+	add("c14-shape-make-len", "C14.shape", "internal/gojqx/totype.go", "vvs := make([]any, len(vv))", "vvs := make([]any, len(vv)+1)", "ToGoJQValueFn|make")
+	add("c14-shape-fixed-index", "C14.shape", "internal/gojqx/totype.go", "vvs[i] = v", "vvs[i/2] = v", "ToGoJQValueFn|make")
 }
